@@ -200,3 +200,84 @@ Theorem C11_checker_reflects_register : forall c amt s w,
              waited_after_send (trace c) h false = true).
 Proof. exact checker_reflects_register. Qed.
 Print Assumptions C11_checker_reflects_register.
+
+(* ---- compositions (proofs/Compose_chain.v) ---------------------------------------------------------------
+   Three values are oracles in the theorems above: the verdict of the request validator together with the
+   result of big.Int.SetString (RPC glue), the result of client.Send, and -- seen from the handshake -- the
+   answer of CheckProviderRegistered itself.  Each is instantiated below by the model that owns it.
+   Non-vacuity: Compose_chain.ex_rpc_amount, ex_register_through_sender, ex_provider_enrolled. *)
+From MevVerif Require model.Rules model.EvmSend model.Handshake proofs.Compose_chain.
+
+(* C11 o C19 (model/Rules.v: the published rule of StakeRequest / PrepayRequest) o C03 (model/Eip712.v:
+   big.Int.SetString(s, 10)).  [Compose_chain.svc_register_text] is the RPC method on the request's amount
+   TEXT.  It is refused, with nothing sent, exactly when the text breaks the published rule (the "cannot
+   parse" refusal behind the validator is unreachable); otherwise exactly one transaction is sent and its
+   value is the number the text spells, positive and below 2^64. *)
+Theorem C11_rpc_amount_is_text : forall kec cfg reg owner amount s w a,
+  (Rules.stake_ok amount = false ->
+     Compose_chain.svc_register_text kec cfg reg owner amount s w a = ([], SvcInvalidArgument)) /\
+  (Rules.stake_ok amount = true ->
+     0 < dec_value amount < 18446744073709551616 /\
+     Compose_chain.svc_register_text kec cfg reg owner amount s w a =
+       svc_register kec cfg reg owner true (Some (Z.of_N (dec_value amount))) s w a /\
+     sends (fst (Compose_chain.svc_register_text kec cfg reg owner amount s w a)) =
+       [{| tx_to := reg; tx_value := Some (Z.of_N (dec_value amount));
+           tx_data := selector kec (method_sig (r_register cfg) []); tx_gas := false |}]).
+Proof. exact Compose_chain.rpc_amount_is_text. Qed.
+Print Assumptions C11_rpc_amount_is_text.
+
+(* C11 o C08 (model/EvmSend.v).  client.Send instantiated by the sender model ([Compose_chain.sendres_of]:
+   a hash is returned exactly when the node took the transaction; [Compose_chain.request_of]: the request
+   carries no gas limit and no gas price).  A stake / prepay reports success only if its one transaction
+   was accepted by the node under a nonce n of the sender -- every external call of that Send succeeded,
+   gas estimate and price suggestion included, and n passed the in-flight window -- and was mined with
+   status 1; the sender's counter then stands at n+1.  When Send does not get the transaction accepted the
+   registry reports error class 1 and the counter is not advanced past the nonce tried. *)
+Theorem C11_register_through_sender : forall kec cfg reg amount hash_of ctr cf a w,
+  let rq := Compose_chain.request_of (send_req kec cfg reg amount) in
+  let sr := EvmSend.send ctr cf rq a in
+  (snd (register kec cfg reg amount (Compose_chain.sendres_of hash_of (snd sr)) w) = Ok tt ->
+     exists n, snd sr = EvmSend.Accepted n /\ w = WReceipt 1 /\ fst sr = (n + 1) mod EvmSend.w64 /\
+       EvmSend.allow_nonce cf n = true /\
+       EvmSend.pending a <> None /\ EvmSend.est_ok a = true /\ EvmSend.tip_ok a = true /\
+       EvmSend.price_ok a = true /\ EvmSend.sign_ok a = true /\ EvmSend.submit_ok a = true) /\
+  ((forall n, snd sr <> EvmSend.Accepted n) ->
+     snd (register kec cfg reg amount (Compose_chain.sendres_of hash_of (snd sr)) w) = Err 1 /\
+     forall p, EvmSend.pending a = Some p -> fst sr = fst (EvmSend.get_nonce ctr p)).
+Proof. exact Compose_chain.register_through_sender. Qed.
+Print Assumptions C11_register_through_sender.
+
+(* C11 o C04 (model/Handshake.v).  The handshake's oracle [registered] instantiated by
+   CheckProviderRegistered of the provider registry with the answers the chain node gives to its two reads
+   during that handshake ([Compose_chain.registry_check]).  A peer is registered or announced as a provider
+   only if both reads succeeded and decoded and the stake read for the peer's proven address A -- the
+   address of its transport identity -- was at least the minimum; the reads made are minStake() and
+   checkStake(A) on the configured contract, asked once. *)
+Theorem C11_provider_enrolled_only_if_staked :
+  forall kec reg a_min a_stake c o wfail script has_notifier add A,
+  Handshake.registered o = Compose_chain.registry_check kec reg a_min a_stake ->
+  In (Handshake.ERegister A Handshake.type_provider) (Handshake.inbound c o wfail script has_notifier add) \/
+  In (Handshake.ENotify A Handshake.type_provider) (Handshake.inbound c o wfail script has_notifier add) ->
+  Handshake.addr_of_pid o = Handshake.POk A /\ Handshake.lookups (Handshake.handle c o wfail script) = [A] /\
+  (exists m s bm bs, a_min = CBytes bm /\ a_stake = CBytes bs /\
+       decode_uint256 bm = Some m /\ decode_uint256 bs = Some s /\ m <= s) /\
+  fst (check kec provider_registry reg A a_min a_stake) =
+    [ECall (read_req kec reg (r_min provider_registry) []);
+     ECall (read_req kec reg (r_stake provider_registry) [VAddress A])].
+Proof. exact Compose_chain.provider_enrolled_only_if_staked. Qed.
+Print Assumptions C11_provider_enrolled_only_if_staked.
+
+(* Fail closed, end to end: with a failed or malformed registry read a provider whose signature and address
+   are in order is refused with the stake error (and so gets the timed block of
+   C17_inbound_stake_failure_blocks_full_term), never enrolled. *)
+Theorem C11_unreadable_registry_refuses_provider :
+  forall kec reg a_min a_stake c o wfail f1 rest token sig a,
+  Handshake.registered o = Compose_chain.registry_check kec reg a_min a_stake ->
+  (a_min = CErr \/ (exists b, a_min = CBytes b /\ decode_uint256 b = None) \/
+   a_stake = CErr \/ (exists b, a_stake = CBytes b /\ decode_uint256 b = None)) ->
+  Handshake.as_req f1 = Some (Handshake.provider_string, token, sig) ->
+  Handshake.verify o sig (Handshake.provider_string ++ token) = Handshake.VOk true a ->
+  Handshake.addr_of_pid o = Handshake.POk a ->
+  Handshake.res (Handshake.handle c o wfail (f1 :: rest)) = Handshake.Refuse Handshake.RStake.
+Proof. exact Compose_chain.unreadable_registry_refuses_provider. Qed.
+Print Assumptions C11_unreadable_registry_refuses_provider.
